@@ -333,14 +333,28 @@ def _interval(ctx: Ctx, c: Collector) -> None:
             pr.append("the interval does not have one zero tier per level of the destination group")
         sts = {e.term[1][2]: e for e in s.of_kind("store") if e.term[1][0] == "idx" and e.term[1][1] == tiers}
         e0 = sts.get(T.const(0))
-        if e0 is None or e0.term[2] != ts or [x for x in guard_terms(e0.guards) if x == ts] != [ts]:
-            pr.append("time_shifted is not placed in tier 0")
         ew = sts.get(("op", "-", cut, T.const(1)))
-        if ew is None or ew.term[2] != wk or wk not in guard_terms(ew.guards):
+        if e0 is None or e0.term[2] != ts:
+            pr.append("time_shifted is not placed in tier 0")
+        if ew is None or ew.term[2] != wk:
             others = [k for k in sts if k != T.const(0)]
             pr.append("weak is placed in tier " + (T.show(others[0]) if others else "<none>") + " instead of the shared group's tier (cutoff - 1)")
         if len(sts) > 2:
             pr.append("additional tiers are written")
+        if e0 is not None and ew is not None:
+            from . import tables
+            from .. import boolfn
+            ROOT = ("attr", common, "parent")
+            try:
+                for a, fired in tables.rows([("t0", without_asserts(s, e0.guards)), ("tw", without_asserts(s, ew.guards)), ("ret", without_asserts(s, r.guards))], [ts, wk, ROOT]):
+                    if "ret" not in fired:
+                        continue          # rejected (weak outside a group)
+                    if a[ts] and "t0" not in fired:
+                        pr.append("a connection that is %stime-shifted loses its time shift" % ("weak and " if a[wk] else ""))
+                    if a[wk] and "tw" not in fired:
+                        pr.append("a connection that is %sweak loses its weak sub-step" % ("time-shifted and " if a[ts] else ""))
+            except boolfn.NotBoolean as ex:
+                pr.append(f"tier placement conditions not understood: {ex}")
     # defaults: connect_interval(g1, g2) is the zero interval (used for successors / async requests)
     import ast as _ast
     dfl = [(_ast.literal_eval(d) if isinstance(d, _ast.Constant) else None) for d in fi.node.args.defaults]
